@@ -22,7 +22,7 @@ PROP = dict(
                  "threshold is only generated at fragment level (it applies per shard)"],
     tags=["gfrag", "gfapi"],
     units=[
-        U("fragtop", ".", "^TestVerifC12_FragTop$", 1000, 15000, sq=6, sth=14, timeout={"quick": 240, "thorough": 1500}),
-        U("api", "./server", "^TestVerifC12_API$", 240, 2000, sq=4, sth=10, timeout={"quick": 300, "thorough": 1800}),
+        U("fragtop", ".", "^TestVerifC12_FragTop$", 1000, 15000, sq=6, sth=14, timeout={"quick": 900, "thorough": 2400}),
+        U("api", "./server", "^TestVerifC12_API$", 240, 2000, sq=4, sth=10, timeout={"quick": 900, "thorough": 2400}),
     ],
 )
